@@ -336,7 +336,7 @@ def _order_eig_policy(ctx):
 
 
 @scenario('C06', 'routines', lambda tier: [{'routine': r, 'rank': k, 'then': q, 'order': o} for o in ((2,) if tier == 'quick' else (2, 3)) for r in ROUTINES for k in (2, 1, 3)
-                                         for q in ('ortho_left()', 'ortho_right()') if not (k == 3 and (q == 'ortho_left()' or r not in RANK3_ROUTINES))])
+                                         for q in ('ortho_left()', 'ortho_right()') if not (k == 3 and (q == 'ortho_left()' or r not in RANK3_ROUTINES or o != 2))])
                                          # rank 3 on modes of size 2: an over-parameterised argument, which any orthonormalisation of the caller's object would shrink
 def routines(ctx, routine, rank, then, order=2):
     """one call of a solver / integrator / data-driven routine, then one in-place operation on each returned train: every argument and every other
@@ -569,7 +569,8 @@ def _flat(res):
     return out
 
 
-@scenario('C06', 'stateless', lambda tier: [{'routine': r, 'order': o} for o in ((2,) if tier == 'quick' else (2, 3)) for r in STATELESS])
+@scenario('C06', 'stateless', lambda tier: [{'routine': r, 'order': o} for o in ((2,) if tier == 'quick' else (2, 3)) for r in STATELESS
+                                             if not (o != 2 and r in DATA_ROUTINES)])        # the data-driven calls are written for two basis modes
 def stateless(ctx, routine, order=2):
     """a routine called with objects that were used in an earlier call and then changed IN PLACE (cores of the operator and of the vector replaced)
     returns what it returns for fresh objects holding the new values: no result depends on anything remembered from the earlier call
